@@ -8,5 +8,6 @@ INVARIANT SameLengthStrangerRefused
 INVARIANT LongerIsIndexError
 INVARIANT DuplicatesKeepFileOrder
 INVARIANT TruncationOnlyOfSmallest
+INVARIANT PaddedObjectNeverAccepted
 INVARIANT EmitInv
 CHECK_DEADLOCK FALSE
